@@ -41,6 +41,10 @@ func rulesC04(c *Ctx) {
 	// the user's listener outside the breaker's mutex (a listener that reads the breaker's state would otherwise
 	// deadlock, and the trial's permit is never returned)
 	c16Overrides(c)
+	// "no more executions admitted in that state run concurrently than the trial capacity": a trial's permit is held for
+	// as long as its function runs because the innermost wrapper returns only after the user function returned
+	c.Rule("user-function")
+	c01Leaf(c)
 }
 
 func rulesC03(c *Ctx) {
@@ -815,6 +819,14 @@ func c03Transition(c *Ctx) {
 		})
 		if cur == nil {
 			bad("transitionTo must compare the current state with the target")
+			continue
+		}
+		// a transition replaces the state and nothing else: the configuration it reads (the fixed delay among it) is
+		// shared by every breaker built from the same builder and is the fallback of later transitions
+		if other := eventsWhere(p, func(e *Event) bool {
+			return e.Kind == EvStore && e.Addr != nil && e.Addr.Op == "faddr" && !(FieldName(e.Addr.Aux) == "state" && e.Addr.Args[0] == cb) && e.Addr.Contains(cb)
+		}); len(other) != 0 {
+			bad("transitionTo writes " + FieldName(other[0].Addr.Aux) + ": a transition may replace the breaker's state and nothing else (the configuration is shared with every breaker of the same builder, and the fixed delay is what later transitions without an execution fall back to)")
 			continue
 		}
 		// the state change and its notifications are one critical section of the caller's lock: transitionTo itself
